@@ -494,6 +494,33 @@ def main(rep, ws, tier):
             return None, 'mirror image of s in the line along t: length preserved, r + s parallel to t'
         run('w_reflect', 'R15.vec', reflect_)
 
+        def scale_range(name):
+            # project / orthogonal / reflect depend on the direction of the vector projected onto only (degree 0 in it): every
+            # quantity they divide by, and every square root they take, has to be of degree <= 1 (radicand <= 2) in each argument,
+            # as length() is - a divisor of degree 2 is zero or infinite long before the argument itself is
+            def fn(S):
+                outs = outs_v(S, 'a0')
+                from .common import degree_ranges
+                deg, sites = degree_ranges(outs)
+                if not sites: return 'no division or square root found', None
+                for kind, node, d in sites:
+                    lim = 1 if kind == 'divisor' else 2
+                    for b, (lo, hi) in sorted(d.items()):
+                        if hi > lim or lo < -lim:
+                            return 'a %s of homogeneity degree %s in argument %s: %s - it underflows to zero (or overflows) for arguments whose own length is still representable (|v| beyond about min^(1/%s) / max^(1/%s)), although the result depends on the direction of that argument only' % (kind, hi if hi > lim else lo, b, T.show(node, 3)[:120], max(abs(hi), abs(lo)), max(abs(hi), abs(lo))), None
+                return None, '%d divisors / radicands, each of degree <= 1 (radicand <= 2) in every argument' % len(sites)
+            run_named(name, fn)
+        def run_named(name, fn):
+            S = R.get(name); oid = '%s<%s>#range' % (name[2:], E)
+            if S is None:
+                rep.ob(oid, 'R15.vec', UNDECIDED, R.err.get(name, 'not analysed')); return
+            try:
+                bad, ok = fn(S)
+            except (P.NotPoly, PC.Undecided, vg.Unsupported, OverflowError) as e:
+                rep.ob(oid, 'R15.vec', UNDECIDED, str(e)[:300], fn_where(S.fn)); return
+            rep.ob(oid, 'R15.vec', VIOLATED if bad else HOLDS, bad or ok, fn_where(S.fn))
+        for nm_ in ('w_project', 'w_orthogonal', 'w_reflect'): scale_range(nm_)
+
         def closest_vertex(S):
             outs = outs_v(S, 'a0')
             vs = [[agg.slot_in(b, i, t) for i in range(3)] for b in ('a1', 'a2', 'a3')]
